@@ -17,7 +17,7 @@ CHECKS = {
         technique='Coq proof (induction over the divisor loop) + model/implementation correspondence by differential execution + independent oracle',
         design='7/C14'),
     'C01': dict(
-        text='PARTIAL. Theorems on the models: every recogniser leaves the cursor inside its input and reports extents inside it (block overshoot and quote back-step included), the unit scanner consumes between 1 and len bytes, the header lies inside the unit, the unit loop and the input rescan loop never exhaust their fuel (termination), channel lists never store beyond the announced capacity. What a model cannot exhibit -- real memory safety and UB of the compiled code -- is decided by running the ASan+UBSan build (exact-size heap buffers, poisoned unused tail of the input buffer via the SCPI_PARSER_VERIF hook, watchdog) in four build configurations on grammar-derived, mutated and raw byte streams in all chunkings with scripts applying every API; any sanitizer or watchdog event is the violation, with the case as replay.',
+        text='PARTIAL. Theorems on the models: every recogniser leaves the cursor inside its input and reports extents inside it (block overshoot and quote back-step included), the unit scanner consumes between 1 and len bytes, the header lies inside the unit, the unit loop and the input rescan loop never exhaust their fuel (termination), channel lists never store beyond the announced capacity, and after every SCPI_Input call of every history (overrunning chunks, any handler scripts) the buffered length stays below the buffer length, so the terminating store is always inside (input_buffer_inv_history). What a model cannot exhibit -- real memory safety and UB of the compiled code -- is decided by running the ASan+UBSan build (exact-size heap buffers -- zero-length ones taken from a poisoned region --, poisoned unused tail of the input buffer via the SCPI_PARSER_VERIF hook, watchdog) in four build configurations on grammar-derived, mutated and raw byte streams in all chunkings with scripts applying every API; any sanitizer or watchdog event is the violation, with the case as replay.',
         technique='Coq proof of cursor bounds / progress / termination on the models + sanitised differential execution in 4 build configurations (the memory-safety half is exploration, stated as such)', design='7/C01'),
     'C04': dict(
         text='Theorems: the strtol model reads blanks, sign and decimal digits to exactly their value and the width conversion is exact in range (decint_exact_signed), #H/#Q/#B digit strings read to exactly their value (nondec_exact), the decimal-to-binary rounding model is round-to-nearest-even with the right binary exponent (bin_exp_correct, rounded_nearest, rounded_normal_range), every row of the generated unit table under every casing and every special / boolean name is found (unit_rows, specials, bool_names: evaluation over the tables regenerated from units.c). libc strtod/strtol and the FPU multiply are modelled, tied to glibc by the correspondence on grammar-generated literals; an independent exact-rational oracle judges the bits the handler received. White space inside a number is a recorded finding.',
@@ -41,20 +41,20 @@ CHECKS = {
         text='PARTIAL. Theorems rne_nearest / rne_tie_even / sig_digits_nearest(_closed) / ilog10_correct / dec64_in_range: the %g model rounds the exact binary value to P significant digits to nearest, ties to even, with the right decimal exponent for every finite double. glibc\'s snprintf is modelled (tied bit-for-bit by the correspondence; CPython\'s correctly rounded formatting is a second, independent oracle). For the USE_CUSTOM_DTOSTRE build the layout stage is modelled and compared on the digits scpi_ecvt produced; scpi_ecvt\'s floating-point digit generation is not modelled and its one-unit claim is decided by the oracle only (a recorded finding at precisions 14/15 and large exponents).',
         technique='Coq proof (rounding and exponent lemmas for the %g specification) + correspondence + exact-rational oracle; digit generation of the custom formatter by oracle only', design='7/C16'),
     'C17': dict(
-        text='Theorems swap16/32/64_bytes (byte reversal), array_bytes (payload = elements in the requested order for sizes 1/2/4/8, both formats, both host orders), array_counts_once, block_header_eq (header = #, digit count, decimal length for every n < 10^9), result_block_lexes. Streaming (bytes concatenated, item counted exactly when complete, over-length data refused with -310) is in ParserModel and tied by scenarios with every split; an independent encoder judges the implementation.',
+        text='Theorems swap16/32/64_bytes (byte reversal), array_bytes (payload = elements in the requested order for sizes 1/2/4/8, both formats, both host orders), array_counts_once, block_header_eq (header = #, digit count, decimal length for every n < 10^9), result_block_lexes. array_result_bytes: inside any handler, at any point of a response, a binary array result is one item -- delimiter, block header, every element in the requested byte order -- on either host order and either code path (one block call / header + one data call per element, empty arrays included); array_steps: in ASCII format every element is an item of its own. Streaming (bytes concatenated, item counted exactly when complete, over-length data refused with -310) is in ParserModel and tied by scenarios with every split; an independent encoder judges the implementation.',
         technique='Coq proof (bit-level swap lemmas, header lemma from C14) + correspondence + independent encoder oracle', design='7/C17'),
     'C19': dict(
-        text='Theorems numlist_walk_spec / numlist_spec (every non-empty list of entries a or a:b rendered with single commas: entry i is reported OK with exactly the offsets and lengths of its literals, NO_MORE beyond the end), channel_range_cap / chanlist_entry_cap (never more values than the capacity, for every body), channel_spec_walk (dimension walk of one specification). The functional half for channel lists and the negative clause are decided by the oracle (reference scanner from the SCPI-99 grammar) on all short bodies and generated lists.',
+        text='Theorems numlist_walk_spec / numlist_spec (every non-empty list of entries a or a:b rendered with single commas: entry i is reported OK with exactly the offsets and lengths of its literals, NO_MORE beyond the end), channel_range_cap / chanlist_entry_cap (never more values than the capacity, for every body), channel_spec_walk (dimension walk of one specification), chanlist_walk_spec / chanlist_spec (every non-empty channel list @e1,e2,... of specifications a!b!c and ranges spec:spec of equal dimensions: entry i is OK with its range flag, dimension count and the values of every dimension that fits the capacity, no error; NO_MORE without error at and beyond the end). The negative clause (malformed content) is decided by the oracle (reference scanner from the SCPI-99 grammar) on all short bodies and generated lists.',
         technique='Coq proof (list walk induction, capacity bound) + correspondence (exhaustive short bodies) + reference-grammar oracle', design='7/C19'),
 
     'C02': dict(
-        text='Theorems dispatch_closed / compose_spec / first_match_spec / undefined_header: on the model of SCPI_Parse the handler starts of a message are, in order and exactly once, the first table entry accepting each unit\'s effective header computed from the message text alone; an undefined header starts no handler and queues one -113 with the unit text. Tied by differential execution of generated multi-unit messages over overlapping tables; an independent reference (effective-header rule + short/long-form matcher) judges the implementation\'s own traces.',
+        text='Theorems dispatch_closed / compose_spec / first_match_spec / undefined_header: on the model of SCPI_Parse the handler starts of a message are, in order and exactly once, the first table entry accepting each unit\'s effective header computed from the message text alone; an undefined header starts no handler and queues one -113 with the unit text; units_accounted / undefined_count: in every message the number of -113 errors equals the number of units with an undefined header, for all handler scripts that do not push -113 themselves. Tied by differential execution of generated multi-unit messages over overlapping tables; an independent reference (effective-header rule + short/long-form matcher) judges the implementation\'s own traces.',
         technique='Coq proof (induction over the unit loop with the in-place header composition) + correspondence + reference dispatcher oracle', design='7/C02'),
     'C03': dict(
-        text='Theorem match_language: for every well-formed unambiguous pattern (rendered from an item list) and every non-empty header, the model of matchCommand accepts iff the header is in the short/long-form language (greedy item matcher = nondeterministic language, then concrete loop = greedy matcher). Numeric-suffix reporting incl. the default for skipped keywords is covered by correspondence and an independent reference matcher on the implementation.',
+        text='Theorem match_language: for every well-formed unambiguous pattern (rendered from an item list) and every non-empty header, the model of matchCommand accepts iff the header is in the short/long-form language (greedy item matcher = nondeterministic language, then concrete loop = greedy matcher). seg_ok_spec: a keyword accepts exactly its long or its short form (any case) followed by digits only when it is KEY#. match_numbers (with match_top_nums, greedyN_reads, sval_spec): with a numbers array the same headers are accepted and, for EVERY reading of the header in the pattern\'s language, the array holds that reading\'s suffixes in keyword order -- the decimal value written after a KEY#, the caller\'s default where the digits or the whole keyword were left out -- and entries beyond the array\'s capacity are dropped. Correspondence and an independent reference matcher judge the implementation.',
         technique='Coq proof (two-level refinement: concrete loop -> greedy item matcher -> language) + correspondence + reference matcher oracle', design='7/C03'),
     'C06': dict(
-        text='Theorem framing: for every context (any history), message, command table and scripts, the bytes written by the model of SCPI_Parse are the join with ";" of the join with "," of the items of the responding units, followed by one line terminator and one flush iff some unit responded (script_framing_streamed extends the script level to streamed blocks). Tied by differential execution; an independent framing function judges the implementation\'s output.',
+        text='Theorem framing: for every context (any history), message, command table and scripts, the bytes written by the model of SCPI_Parse are the join with ";" of the join with "," of the items of the responding units, followed by one line terminator and one flush iff some unit responded (script_framing_streamed / framing_streamed extend this to blocks streamed as header + data pieces and to array results, at script and at message level). Tied by differential execution; an independent framing function judges the implementation\'s output.',
         technique='Coq proof (invariant over result calls, units and the message) + correspondence + independent framing oracle', design='7/C06'),
     'C10': dict(
         text='Theorems push_refines / pop_refines / qrun_refines / clear_spec: the ring FIFO + error queue model (malloc configuration) refines an abstract list of capacity N for every history: overflow replaces the newest entry by -350, codes come back in order, texts are owned (every free hits a live allocation exactly once, nothing live after clear), allocation failure keeps the error. Tied by exhaustive short and random long histories on the malloc and no-info builds with LeakSanitizer and allocation-failure injection.',
@@ -66,7 +66,7 @@ CHECKS = {
         text='Theorems classify (all 65536 codes, by evaluation over the table regenerated from error.c) and srq_step (callback only with MSS set, always when MSS rises). Latching and stickiness are checked by the oracle on the implementation and by correspondence with the register model.',
         technique='Coq proof (finite evaluation over the generated table + step lemma) + correspondence + oracle', design='7/C12'),
     'C13': dict(
-        text='Per-recogniser theorems on the lexer model: decimal numbers, white space, character data, single characters and flat expressions consume exactly the longest prefix of their 488.2 grammar (or nothing); nondecimal numbers likewise; strings and definite-length blocks are sound and complete for their delimited forms; compound/common headers and whole units header-blank-decimal-list-terminator are complete; the line terminator is maximal. Tied by all strings up to length 4/5 over one representative per character class (every recogniser on every string) plus generated long tokens; independent regular-expression references judge the implementation.',
+        text='Per-recogniser theorems on the lexer model: decimal numbers, white space, character data, single characters and flat expressions consume exactly the longest prefix of their 488.2 grammar (or nothing); nondecimal numbers likewise; strings and definite-length blocks are sound and complete for their delimited forms; compound and common headers are complete and sound (compound_sound / common_sound: whatever is reported as a header is :?mnemonic(:mnemonic)*?? resp. *mnemonic?? followed by something that cannot continue it); whole units header-blank-decimal-list-terminator are complete; the line terminator is maximal. Tied by all strings up to length 4/5 over one representative per character class (every recogniser on every string) plus generated long tokens; independent regular-expression references judge the implementation.',
         technique='Coq proof (maximal-munch lemmas per recogniser) + correspondence (exhaustive short strings) + grammar oracle', design='7/C13'),
     'C18': dict(
         text='Theorems quoted_part / quoted_bounded / quoted_prefix / quoted_maximal: for every description and text the model of SCPI_ResultError emits code,"q" with every quote doubled, |q| <= 255, unquote(q) a prefix of description;text, cut as late as the limit allows. Tied on the malloc build directly and through push + SYST:ERR? on the malloc and static-heap builds; an independent 488.2 string reader judges the implementation.',
